@@ -137,3 +137,10 @@ func genProjDir(t *rapid.T) string {
 	}
 	return rapid.SampledFrom(projDirPool).Draw(t, "proj_dir")
 }
+
+func genInvoke(t *rapid.T) string {
+	if rapid.IntRange(0, 2).Draw(t, "odd_invocation") != 0 {
+		return ""
+	}
+	return rapid.SampledFrom([]string{"rel-dot", "rel-parent", "abs-elsewhere", "rel-elsewhere"}).Draw(t, "invoke")
+}
